@@ -156,3 +156,37 @@ Theorem C04_status_examples :
   /\ status_check (doc30 [(KStr [50;120;120], RInline no_body)] []) (resp 204 None NotJson) = Ok [].
 Proof. exact status_examples. Qed.
 Print Assumptions C04_status_examples.
+
+(* ---- the loaded schema as state: verdicts do not depend on what was validated before ---- *)
+(* the model of converter.to_json_schema leaves the schema object of the caller as it was
+   (checked against the real function, object by object, on every run) *)
+Theorem C04_conversion_leaves_document : forall s, snd (to_json_schema_obj s) = s.
+Proof. exact conversion_leaves_document. Qed.
+Print Assumptions C04_conversion_leaves_document.
+
+(* hence a sequence of validations on ONE loaded schema gives, response by response, the verdict of that
+   response alone: for all documents, stores of object schemas, response lists, instance maps *)
+Theorem C04_verdict_seq : forall hvalid inst d st rs,
+  verdict_seq hvalid inst d st rs = map (fun r => verdict (valid_st st inst) hvalid d r) rs.
+Proof. exact verdict_seq_pure. Qed.
+Print Assumptions C04_verdict_seq.
+
+(* the converted schema accepts exactly the objects the documentation allows in a response *)
+Theorem C04_writeonly_partial : forall s present,
+  single_writeonly s = true -> nodupb (o_required s) = true ->
+  jvalid (fst (to_json_schema_obj s)) present = ovalid s present.
+Proof. exact writeonly_agree. Qed.
+Print Assumptions C04_writeonly_partial.
+
+Theorem C04_writeonly_refuted : exists s present,
+  single_writeonly s = false /\ nodupb (o_required s) = true
+  /\ jvalid (fst (to_json_schema_obj s)) present = true /\ ovalid s present = false.
+Proof. exists o_two, [s_id_; s_pw]. exact refuted_two_writeonly. Qed.
+Print Assumptions C04_writeonly_refuted.
+
+Theorem C04_history_example :
+  verdict_seq hnone inst_hist d_hist [(0, o_one)]
+    [resp 200 (Some s_app_json) (Json 0); resp 200 (Some s_app_json) (Json 1); resp 200 (Some s_app_json) (Json 1)]
+  = [[]; [FBodySchema]; [FBodySchema]].
+Proof. exact history_example. Qed.
+Print Assumptions C04_history_example.
